@@ -196,10 +196,7 @@ func (t *Type) KindName() string {
 	case "arr":
 		return "array"
 	case "vec":
-		if t.Elem.K == "byte" {
-			return fmt.Sprintf("vec-w%d", t.W)
-		}
-		return fmt.Sprintf("vec-w%d-of-%s", t.W, t.Elem.KindName())
+		return fmt.Sprintf("vec-w%d", t.W)
 	case "struct":
 		for _, f := range t.Fields {
 			if f.Sel != "" {
